@@ -21,12 +21,13 @@ def session_case(inp):
         objs.append(G)
         ids.append(i)
     snaps = [gl.snapshot(G) for G in objs]
-    views = {"el": [], "elch": [], "plain": []}
-    c1, c2, c3 = gl.Coder(), gl.Coder(), gl.Coder()
+    views = {"el": [], "elch": [], "plain": [], "topo": []}
+    c1, c2, c3, c4 = gl.Coder(), gl.Coder(), gl.Coder(), gl.Coder()
     for G, i in zip(objs, ids):
         views["el"].append(gl.project(G, *SELS["el"], c1, ids=i)[0])
         views["elch"].append(gl.project(G, *SELS["elch"], c2, ids=i)[0])
         views["plain"].append(gl.project(G, *SELS["elch"], c3, ids=i, hcount=False)[0])
+        views["topo"].append(gl.project(G, SELS["elch"][0], [], c4, ids=i, hcount=False)[0])     # bond orders not selected
     engines: Dict[Any, Any] = {}
 
     def engine(sel, wl, unlimited):
@@ -45,7 +46,13 @@ def session_case(inp):
             ms = engine(q["sel"], q["flag"], q["unlimited"]).get_mappings(a, b)
             r["res"] = [gl.map_to_seq(m, ids[q["b"] - 1], ids[q["a"] - 1]) if len(m) == b.number_of_nodes() else [0] * b.number_of_nodes() for m in ms]
         elif q["op"] == "giso":
-            if q["impl"] == "graph_isomorphism":
+            if q["impl"] == "find_graph_isomorphism-no-edge-attrs":
+                from networkx.algorithms.isomorphism import generic_node_match
+                from operator import eq
+                nm = generic_node_match(["element", "charge"], ["*", 0], [eq, eq])
+                r["res"] = gmod.find_graph_isomorphism(a, b, node_match=nm, edge_match=None, use_defaults=False,
+                                                       fast_invariant_check=q["flag"]) is not None
+            elif q["impl"] == "graph_isomorphism":
                 r["res"] = bool(gmod.graph_isomorphism(a, b, use_defaults=True))
             else:
                 from networkx.algorithms.isomorphism import generic_node_match, generic_edge_match
@@ -87,6 +94,8 @@ def pair_queries(rng: random.Random) -> List[Dict[str, Any]]:
     for flag in (False, True):
         qs.append(Q("giso", "plain", 1, 2, flag, impl="find_graph_isomorphism"))
         qs.append(Q("giso", "plain", 1, 3, flag, impl="find_graph_isomorphism"))
+        qs.append(Q("giso", "topo", 1, 2, flag, impl="find_graph_isomorphism-no-edge-attrs"))
+        qs.append(Q("giso", "topo", 3, 1, flag, impl="find_graph_isomorphism-no-edge-attrs"))
         for op in ("sub-induced", "sub-mono"):
             for impl in ("SubgraphMatch.subgraph_isomorphism", "graph_morphism.subgraph_isomorphism", "SubgraphMatch.is_subgraph"):
                 qs.append(Q(op, "plain", 1, 2, flag, impl=impl))
